@@ -12,6 +12,8 @@ CONSTANTS
   MaxVariants = 0
   MinEmit = 2
   SimMode = FALSE
+  VarLens = {0}
+  VarW = {1, 2, 3}
 INVARIANT InvWellFormed
 INVARIANT InvTiles
 INVARIANT InvOrdered
